@@ -3,7 +3,7 @@
    facade) produced, in the canonical descriptor view of Desc.v. *)
 From Coq Require Import String List NArith Bool.
 From J5V.lib Require Import Outcome Corr Strcase.
-From J5V.model Require Import J5sAst Desc J5sWalk J5sConvert.
+From J5V.model Require Import J5sAst Desc J5sWalk J5sConvert J5sValid J5sEdit.
 Import ListNotations.
 Local Open Scope N_scope.
 
@@ -14,27 +14,51 @@ Definition compile (bd : bundle) (pkg : str) : outcome (list dfile) :=
 Definition sort_files (l : list dfile) : list dfile :=
   sort_by (fun x y => str_ltb (fl_path x) (fl_path y)) l.
 
-(* ok: CompilePackage returned without error; files: the generated files (suffix .j5s.proto) *)
+(* the validity predicate of C02_full / C13_full, with the same instantiation *)
+Definition valid (bd : bundle) : bool := valid_bundle to_snake to_camel to_screaming_snake bd.
+
+(* ok: CompilePackage returned without error; files: the generated files (suffix .j5s.proto).
+   CCompileV adds okall: the real compiler accepted every package of the bundle.  A valid
+   bundle must be accepted (the hypothesis of C02_full is not true of rejected packages); with
+   exact = true also the converse (it is not false of accepted ones: generated bundles and
+   the broken ones; not the hand-written corpus cases that are outside the documented language
+   and accepted all the same). *)
 Inductive c02case :=
-| CCompile (bd : bundle) (pkg : str) (ok : bool) (files : list dfile).
+| CCompile (bd : bundle) (pkg : str) (ok : bool) (files : list dfile)
+| CCompileV (bd : bundle) (pkg : str) (ok okall exact : bool) (files : list dfile).
+
+Definition compile_check (bd : bundle) (pkg : str) (ok : bool) (files : list dfile) : bool :=
+  match compile bd pkg with
+  | Ok fs => ok && list_eqb dfile_eqb (sort_files fs) files
+  | Err _ => negb ok
+  | _ => false
+  end.
 
 Definition c02_check (c : c02case) : bool :=
   match c with
-  | CCompile bd pkg ok files =>
-      match compile bd pkg with
-      | Ok fs => ok && list_eqb dfile_eqb (sort_files fs) files
-      | Err _ => negb ok
-      | _ => false
-      end
+  | CCompile bd pkg ok files => compile_check bd pkg ok files
+  | CCompileV bd pkg ok okall exact files =>
+      compile_check bd pkg ok files &&
+      (if exact then Bool.eqb (valid bd) okall else implb (valid bd) okall)
   end.
 
 (* C13: the package before and after a sequence of append edits, both compiled by the real
-   compiler; the model must reproduce both. *)
+   compiler; the model must reproduce both - from the edited source as the generator printed
+   it (bd') and from the model's own application of the edits (apply_edits bd es), so that the
+   edits of the theorems are the edits that were tried. *)
 Inductive c13case :=
-| CEdit (bd bd' : bundle) (pkg : str) (ok ok' : bool) (files files' : list dfile).
+| CEdit (bd : bundle) (es : list edit) (bd' : bundle) (pkg : str) (ok ok' okall okall' embeds : bool) (files files' : list dfile).
 
+(* okall / okall': the real compiler accepted every package of the bundle before / after the
+   edits - exactly when the bundle is [valid] (the hypothesis of C13_full on both sides) *)
 Definition c13_check (c : c13case) : bool :=
   match c with
-  | CEdit bd bd' pkg ok ok' files files' =>
-      c02_check (CCompile bd pkg ok files) && c02_check (CCompile bd' pkg ok' files')
+  | CEdit bd es bd' pkg ok ok' okall okall' embeds files files' =>
+      compile_check bd pkg ok files && compile_check bd' pkg ok' files' &&
+      compile_check (apply_edits bd es) pkg ok' files' &&
+      Bool.eqb (valid bd) okall && Bool.eqb (valid (apply_edits bd es)) okall' &&
+      (* the embedding itself, on what the real compiler produced before and after (embeds =
+         false only for the hand-written pair of the known finding: an option ending in
+         UNSPECIFIED appended to an enum without options) *)
+      (if ok && ok' then Bool.eqb (files_ext_b files files') embeds else true)
   end.
